@@ -42,6 +42,12 @@ CONFIG = {
     "thorough": {"runs": 1600, "budget_s": 1700, "timeout_s": 600},
     "shrink_s": 90.0,
 }
+def NONREPRO_IS_NOISE(v: dict) -> bool:
+    """Growth of the total gc population that no named root explains is a measurement (dead weak references, allocator and
+    collector state); the runner measures the same history a second time in a fresh process before reporting it."""
+    return v.get("clause") == "gc_growth" and str(v.get("key", "")).startswith("unattributed/")
+
+
 SAMPLE_AT = (50, 150, 450)
 CONFIRM_AT = 1350      # a candidate for growth that no named root explains is confirmed (or dismissed) on a three times longer history
 SLOPE = 0.5
